@@ -653,15 +653,22 @@ impl Prop for C25 {
         "http" => json!({"kind":"http_init"}),
         _ => json!({"kind":"ffi_open"}),
       };
+      let mut init_note = String::new();
       let init_ok = match front {
         "cli" => cli(&bin, &["init", &fdir_s, &schema_file.to_string_lossy()]).ok,
         "http" => match Server::start(&fdir, &ServerCfg { refresh_on_commit: refresh, ..Default::default() }) {
           Ok(sv) => {
             let r = post_json(sv.port, "/init", &schema_json);
             server = Some(sv);
+            if r.status != Some(200) {
+              init_note = format!("POST /init answered {:?}", r.status);
+            }
             r.status == Some(200)
           }
-          Err(_) => false,
+          Err(e) => {
+            init_note = format!("server start: {e}");
+            false
+          }
         },
         _ => {
           // the FFI can only create the default schema: other schemas are created through the
@@ -682,7 +689,7 @@ impl Prop for C25 {
       };
       let twin_init = twin.exec(&native_denote(&init_op));
       if !init_ok || twin_init.is_err() {
-        s.fail(&format!("init.{front}"), "initialising an index through the front end failed", case, json!({"front_ok": init_ok, "twin": format!("{twin_init:?}")}));
+        s.fail(&format!("init.{front}"), "initialising an index through the front end failed", case, json!({"front_ok": init_ok, "twin": format!("{twin_init:?}"), "note": init_note}));
         continue;
       }
       script.push(init_op);
